@@ -1,0 +1,47 @@
+//go:build verif
+
+// Contracts for the pipe between a created file's writer and the storing side, read by /verif/govc.
+// Sequential contracts with explicit interference: what other goroutines may change while a call
+// blocks is the `modifies` clause of the blocking call (sync.Cond.Wait, sync.WaitGroup.Wait in
+// /verif/trusted/stdlib.spec).
+package async
+
+// WaitGroup.Wait returns when the goroutines it waits for have finished: what they publish before
+// finishing (the pipe's error, through SetError) is settled on return and may differ from what it was before.
+//@ func (*sync.WaitGroup).Wait
+//@   trusted
+//@   modifies readWriter.err
+
+// The reader sees end-of-file only after Close, and only when everything written has been read.
+//@ func (*readWriter).Read
+//@   requires wf:      rw != nil && rw.cv != nil
+//@   modifies sync/atomic.Bool.gv, bytes.Buffer.blen, mem[uint8]
+//@   ensures  noearly: result1 != nil ==> result1 == io.EOF && rw.closed.gv && rw.buf.blen == 0
+//@ loop (*readWriter).Read#1
+//@   invariant wf: rw != nil && rw.cv != nil
+
+// A write either appends the whole chunk or, once the storing side has reported an error, appends
+// nothing and returns that error.
+//@ func (*readWriter).Write
+//@   requires wf:   rw != nil && rw.cv != nil
+//@   modifies bytes.Buffer.blen
+//@   ensures  iff:  result1 == nil <==> rw.err == nil
+//@   ensures  ok:   result1 == nil ==> result0 == len(p) && rw.buf.blen == old(rw.buf.blen) + len(p)
+//@   ensures  fail: result1 != nil ==> result1 == rw.err && result0 == 0 && rw.buf.blen == old(rw.buf.blen)
+
+// Close marks the pipe closed and returns the error as it stands when the storing side has finished.
+//@ func (*readWriter).Close
+//@   requires wf:      rw != nil && rw.cv != nil
+//@   modifies sync/atomic.Bool.gv, readWriter.err
+//@   ensures  closed:  rw.closed.gv
+//@   ensures  verdict: result == rw.err
+
+//@ func (*readWriter).SetError
+//@   requires wf:    rw != nil
+//@   modifies readWriter.err, mem[error]
+//@   ensures  set:   err != nil ==> rw.err != nil
+//@   ensures  keeps: old(rw.err) != nil ==> rw.err != nil
+
+//@ func (*readWriter).checkErr
+//@   requires wf: rw != nil
+//@   ensures  r:  result == rw.err
